@@ -453,14 +453,16 @@ impl Python {
         // Adds all the required imports needed based off whether its optional ,aliased, or needs a byte translation
         self.add_common_imports(is_optional, custom_translations.is_some(), is_aliased);
 
-        let mut field_type = python_type;
+        let mut field_type = python_type.clone();
 
         if not_optional_but_default {
             field_type = format!("Optional[{field_type}]");
         }
         if let Some(custom_translation) = custom_translations {
+            // register the type the translation was found for, not the text wrapped in Optional[..]
+            // for a defaulted field: the helper functions are written per registered type.
             self.types_for_custom_json_translation
-                .insert(field_type.clone());
+                .insert(python_type.clone());
             field_type = format!(
                 "Annotated[{field_type}, BeforeValidator({}), PlainSerializer({})]",
                 custom_translation.deserialization_name, custom_translation.serialization_name
